@@ -405,6 +405,11 @@ func runShard(p *Prop, ph *Phase, tier string, seed int64, bindir, work string, 
 		if code == 3 && lastS >= 0 {
 			o.stall++
 			start = lastS + 1
+			if o.stall >= 3 {
+				// every stall costs a watchdog period; three witnesses from one shard are enough
+				o.incon["stalls"] = fmt.Sprintf("worker %d of phase %s stopped after 3 stalled cases (last: case %d)", k, ph.Name, lastS)
+				return o
+			}
 			continue
 		}
 		// crash
